@@ -26,6 +26,10 @@ type Config struct {
 	StopOnViolation bool
 	Trace           bool
 	SolverLog       string
+	Params          map[string]int
+	SampleModels    int
+	Seed            int
+	Concrete        map[string]InputValue // non-nil: concrete mode (inputs fixed, real SHA-256)
 	bhCache         sync.Map
 }
 
@@ -85,6 +89,8 @@ type PathResult struct {
 	Sample       string
 	Stubs        map[string]int
 	HashApps     int
+	Traces       []string
+	ModelVector  []InputValue
 }
 
 func newPathResult() *PathResult {
@@ -470,7 +476,7 @@ func (in *Interp) runPath(entry *ssa.Function, prefix []Decision) (res *PathResu
 			res.Detail = p.msg + " at " + p.pos
 			// an uncaught panic of the code under test is a violation by default
 			in.syncPC()
-			res.addViolation(in, "uncaught-panic", p.msg+" at "+p.pos, in.modelFor(nil))
+			res.addViolation(in, "uncaught-panic@"+p.pos, p.msg+" at "+p.pos, in.modelFor(nil))
 		default:
 			res.Status = "engine-error"
 			res.Detail = fmt.Sprintf("%v\n%s", r, debug.Stack())
@@ -504,6 +510,14 @@ func (in *Interp) runPath(entry *ssa.Function, prefix []Decision) (res *PathResu
 			}
 		}()
 	}
+	if res.Status == "ok" && in.cfg.Concrete == nil && in.sampled < in.cfg.SampleModels && len(in.inputs)+len(in.digestInputs) > 0 {
+		func() {
+			defer func() { recover() }()
+			in.syncPC()
+			res.ModelVector = in.modelFor(nil)
+			in.sampled++
+		}()
+	}
 	res.Steps = in.steps
 	res.HashApps = in.hashApps
 	if len(in.pc) > 0 {
@@ -526,32 +540,35 @@ func (in *Interp) runPath(entry *ssa.Function, prefix []Decision) (res *PathResu
 // ---- exploration driver ----
 
 type Summary struct {
-	Paths        int
-	ByStatus     map[string]int
-	Violations   []*Violation
-	AssertsSym   int
-	AssertsConc  int
-	Covers       map[string]bool
-	CoverSeen    map[string]bool
-	Reaches      map[string]bool
-	Assumes      map[string]int
-	Bounds       map[string]string
-	Forks        int
-	Steps        int64
-	Inconclusive map[string]int
-	Samples      []string
-	Queries      int
-	QSat         int
-	QUnsat       int
-	QUnknown     int
-	QErrors      int
-	SolverTime   time.Duration
-	Wall         time.Duration
-	Functions    map[string]int64
-	Stubs        map[string]int
-	HashApps     int
-	Pending      int
-	MaxStepsSeen int64
+	Paths         int
+	ByStatus      map[string]int
+	Violations    []*Violation
+	AssertsSym    int
+	AssertsConc   int
+	Covers        map[string]bool
+	CoverSeen     map[string]bool
+	Reaches       map[string]bool
+	Assumes       map[string]int
+	Bounds        map[string]string
+	Forks         int
+	Steps         int64
+	Inconclusive  map[string]int
+	Samples       []string
+	Queries       int
+	QSat          int
+	QUnsat        int
+	QUnknown      int
+	QErrors       int
+	SolverTime    time.Duration
+	Wall          time.Duration
+	Functions     map[string]int64
+	Stubs         map[string]int
+	HashApps      int
+	Pending       int
+	MaxStepsSeen  int64
+	Traces        []string
+	AllViolations int
+	ModelVectors  [][]InputValue
 }
 
 func Explore(prog *ssa.Program, entry *ssa.Function, cfg *Config) *Summary {
@@ -626,6 +643,13 @@ func Explore(prog *ssa.Program, entry *ssa.Function, cfg *Config) *Summary {
 				}
 			}
 			sum.AssertsSym += res.AssertsSym
+			sum.AllViolations += len(res.Violations)
+			if res.ModelVector != nil && len(sum.ModelVectors) < cfg.SampleModels {
+				sum.ModelVectors = append(sum.ModelVectors, res.ModelVector)
+			}
+			if cfg.Concrete != nil {
+				sum.Traces = append(sum.Traces, res.Traces...)
+			}
 			sum.AssertsConc += res.AssertsConc
 			for k := range res.Covers {
 				sum.Covers[k] = true
